@@ -516,11 +516,11 @@ func compatible(a, b string) bool {
 func init() {
 	core.Register(&core.Property{
 		ID: "C16", Engine: "G", Level: "exploration", Bubble: true,
-		Rule: "each run: a real BlockManager.Run with real BlockDownloaders (ConcurrentBlockRequests 1-4, request delay 1/5/30 s) serves 1-3 queued requests from simulated sources; at every quiescent point the tape picks one action among: a source starts its handler, hands over the next transaction, ends its stream, cuts it, drops before/after start (onStop), serves a wrong block, the requester aborts, shutdown, or the clock advances (1 s .. 1 h, firing the start, download, cancel-poll and request-delay timers), or a goroutine held at one of the code's marked scheduling points (verif hook SimYield: a stalled goroutine fault, planned from the tape per site and arrival) is released; cancellation is answered started/not-started by the source's real state; then a fault-free epilogue with honest sources; non-trivial = every run; distinct = distinct hash of the canonical event log (the sequence of chosen actions)",
+		Rule: "each run: a real BlockManager.Run with real BlockDownloaders (ConcurrentBlockRequests 1-4, request delay 1/5/30 s) serves 1-3 queued requests from simulated sources; at every quiescent point the tape picks one action among: a source starts its handler, hands over the next transaction, ends its stream, cuts it, drops before/after start (onStop), serves a wrong block, the requester aborts, shutdown, or the clock advances (1 s .. 1 h, firing the start, download, cancel-poll and request-delay timers), or a goroutine held at one of the code's marked scheduling points (verif hook SimYield: a stalled goroutine fault, planned from the tape per site and arrival) is released; cancellation is answered started/not-started by the source's real state; then a fault-free epilogue with honest sources; non-trivial = every run; distinct = distinct hash of the canonical event log (the sequence of chosen actions) Engine F phase (second search phase, instrumented build, see DESIGN.md 2.4): the same actions with Run, Cancel, Stop, HandleBlock, cancelDownloaders, onDownloaderCompleted and the manager loop interleaved at statement granularity by the tape's scheduler (mutexes are TryLock loops, so a goroutine can be parked inside a critical section), tape-chosen stalls and select poll order, pumped clock",
 		Real: blockReal, Stub: blockStub,
 		Assumptions: []string{"interleavings are controlled at the granularity of source/requester/timer actions; between two quiescent points woken goroutines run in the Go runtime's order and a select with several ready cases is resolved by the runtime (not replayable from the tape); the oracles are order independent",
 			"a requester stops listening when shutdown is signalled, as NodeManager.synchronizeBlocks does"},
-		FaultKinds:   []string{"source:not-available", "source:wrong-block", "source:drop-before-start", "source:stream-cut", "source:drop-mid-block", "request:abort", "shutdown", "source:drop-during-shutdown", "source:drop-after-cancel", "stalled-goroutine-released"},
+		FaultKinds:   []string{"schedule:goroutine-stalled", "source:not-available", "source:wrong-block", "source:drop-before-start", "source:stream-cut", "source:drop-mid-block", "request:abort", "shutdown", "source:drop-during-shutdown", "source:drop-after-cancel", "stalled-goroutine-released"},
 		ProbeNames:   []string{"terminal:completed", "terminal:value:Block Aborted", "abort-acknowledged", "abort-and-shutdown-same-instant", "two-actions-same-instant", "handler-start-and-shutdown-same-instant", "run-with-stalled-goroutines"},
 		Run:          runC16,
 		QuickSeconds: 20, ThoroughSeconds: 700, MinRuns: 300, BatchSize: 25, RunTimeoutSeconds: 300,
